@@ -28,6 +28,15 @@ class LinNoneSlot(nn.Linear):
         self.register_module('dropout', None)
 
 
+class GainLinear(nn.Linear):
+    """A supported type with an extra parameter of its own (frozen here:
+    not all of its parameters require gradients)."""
+
+    def __init__(self):
+        super().__init__(3, 2)
+        self.gain = nn.Parameter(torch.ones(2), requires_grad=False)
+
+
 class Box(nn.Module):
     def __init__(self, kids):
         super().__init__()
@@ -36,7 +45,7 @@ class Box(nn.Module):
 
 
 LEAVES = ['Lin', 'LinNB', 'SubLin', 'LinChild', 'Conv2d', 'Conv1d', 'ReLU',
-          'Frozen', 'HalfFrozen', 'Shared', 'Emb', 'BN', 'NoneSlot', 'TiedF']
+          'Frozen', 'HalfFrozen', 'Shared', 'Emb', 'BN', 'NoneSlot', 'TiedF', 'GainF']
 CONTAINERS = ['Seq', 'Dict', 'Box']
 
 
@@ -68,6 +77,8 @@ def mk_leaf(kind, shared):
         return m
     if kind == 'Shared':
         return shared
+    if kind == 'GainF':
+        return GainLinear()
     if kind == 'TiedF':
         # distinct instances sharing one frozen weight parameter (tied
         # weights): named_parameters() reports it under the first owner only
@@ -338,10 +349,10 @@ def main(run: core.Run):
     run.c['transitions'] = run.c.get('evaluations', 0)
     run.c['distinct_nontrivial'] = len(run.distinct.get('nontrivial', ()))
     run.rule = (
-        f'every module tree with <= {maxn} nodes over 14 leaf kinds (Linear '
+        f'every module tree with <= {maxn} nodes over 15 leaf kinds (Linear '
         '+/- bias, Linear subclasses with and without a child, Conv2d, '
         'Conv1d, Embedding, BatchNorm2d, ReLU, frozen and half-frozen Linear,'
-        ' one shared instance mounted repeatedly, distinct instances tied to one frozen weight) and 3 container kinds x '
+        ' one shared instance mounted repeatedly, distinct instances tied to one frozen weight, a subclass with a frozen extra parameter) and 3 container kinds x '
         f'{len(skips)} skip-pattern lists; registered (name, instance) set '
         'compared with an independent pre-order walk; hook counts on every '
         'module; non-trivial = at least one registered and one unregistered '
